@@ -1,4 +1,5 @@
 import Deltio.Proto.Wake
+import Deltio.Lemmas.Drain
 /-
   C06 — Waiting consumers are woken when a message becomes available.
   Slice P2 (Deltio/Proto/Wake.lean): all interleavings, any number of consumers of both kinds,
@@ -127,5 +128,40 @@ example : run false false P2.init [.arrive, .arrive, .pullTurn 1, .pullTurn 1, .
       .pullTurn 1, .ret false] =
     some { backlog := 1, permit := true, q := 0, g0 := 0, gp := 0, parked := 0, notif := 0, blk := 0, other := 0, deleted := false, ended := 0, silent := 0 } := by
   decide
+
+/-! ### System level, sequential histories: a StreamingPull never leaves messages queued -/
+
+theorem DrainInv_init : DrainInv Sys.init := by
+  constructor
+  · simp [Sys.init]
+  · intro e he; simp [Sys.init] at he
+  · intro s hs; simp [Sys.init] at hs
+
+theorem DrainInv_execOps : ∀ (ops : List SysOp) (sys : Sys), DrainInv sys → sys.admitsAll ops → DrainInv (sys.execOps ops) := by
+  intro ops
+  induction ops with
+  | nil => intro sys h _; exact h
+  | cons op rest ih =>
+    intro sys h hadm
+    exact ih _ (DrainInv_apply h op hadm.1) hadm.2
+
+/-- C06 (system model, all admissible sequential histories — any requests, stream operations and
+    time advances, with a possibly blocking Pull only on a subscription nobody streams from): at
+    every moment, for every open StreamingPull, nothing is queued on its subscription. Whatever
+    became available — by publish, nack, deadline expiry, through the expiry re-check after any
+    request — has been handed to a stream: the pull loop's fuel always suffices
+    (`drainStream_drains`) and every step that can queue a message is followed by the drain. -/
+theorem C06_streams_drained (ops : List SysOp) (hadm : Sys.init.admitsAll ops) :
+    ∀ s ∈ (Sys.init.execOps ops).streams, s.ended = false →
+      ∀ st, (Sys.init.execOps ops).stateOf s.sid = some st → st.backlog = [] :=
+  (DrainInv_execOps ops Sys.init DrainInv_init hadm).drained
+
+/-! non-vacuity: a stream opened on `p/a`, then a publish: delivered to the stream, nothing queued -/
+example :
+    let s1 := (exSys.streamOpen 1 exS1 10).1
+    let s2 := (s1.rpc (.publish exT [([1], [])])).1
+    (s2.stateOf 2).map (fun st => (st.backlog.length, st.out.msgs.length)) = some (0, 1) ∧
+    (s2.streams.map (fun s => s.outbox.length)) = [1] ∧
+    (s2.stateOf 3).map (fun st => st.backlog.length) = some 1 := by decide
 
 end Deltio
